@@ -2,12 +2,13 @@
 EXTENDS C02_Channel, Json
 \* JSON-able projection of the VIEW'd state (compact: every printed edge carries two of them):
 \* << nsent, wnonce, rnonce, wire as <<nonce, plaintext length, st>>, closed, qlive, Len(qbuf), qseek,
-\*    broken, Len(delivered), rdErr, under, nfault, errPos >>
+\*    broken, Len(delivered), rdErr, under, nfault, errPos, stopPos, rg, wg, loose, nglitch, wdead >>
 St == << nsent, wnonce, rnonce, [i \in 1..Len(wire) |-> <<wire[i].n, Len(wire[i].pt), wire[i].st>>], closed,
-         qlive, Len(qbuf), qseek, broken, Len(delivered), rdErr, under, nfault, errPos >>
+         qlive, Len(qbuf), qseek, broken, Len(delivered), rdErr, under, nfault, errPos, stopPos, rg, wg, loose, nglitch,
+         wdead >>
 EmitEdge == PrintT(<<"VFEDGE", ToJson([s |-> St, op |-> op', t |-> St'])>>)
 Conf == [tag |-> Tag, maxpt |-> MaxPT, maxsent |-> MaxSent, maxwrite |-> MaxWrite, bufs |-> Bufs,
-         shorts |-> Shorts, faults |-> Faults, maxfaults |-> MaxFaults]
+         shorts |-> Shorts, faults |-> Faults, maxfaults |-> MaxFaults, others |-> Others, glitches |-> Glitches]
 MCInit == Init /\ PrintT(<<"VFINIT", ToJson(St)>>) /\ PrintT(<<"VFCONF", ToJson(Conf)>>)
 AllFaults == {"flip", "fliplen", "drop", "dup", "swap", "cut", "cuteof", "trunc"}
 =============================================================================
